@@ -580,6 +580,37 @@ func PackageVC(w *World, prop string) *FnVC {
 		vc.Obls = append(vc.Obls, &Obligation{Name: fmt.Sprintf("package/const#%d:%s", i, clip(c[0], 40)), Class: "const", Props: props, Func: "package ice",
 			Desc: "format constant: " + c[0], Pos: c[2], Guard: True, Goal: t, Claimed: true})
 	}
+	for i, fi := range w.Spec.FieldInvs {
+		props := strings.Split(fi[3], ",")
+		if !hasProp(props, prop) {
+			continue
+		}
+		obj, ok := w.TPkg.Scope().Lookup(fi[0]).(*types.TypeName)
+		if !ok {
+			vc.Unsupported = append(vc.Unsupported, fmt.Sprintf("%s: fieldinv: no type %s", fi[4], fi[0]))
+			continue
+		}
+		st, _ := obj.Type().Underlying().(*types.Struct)
+		var ft types.Type
+		for k := 0; st != nil && k < st.NumFields(); k++ {
+			if st.Field(k).Name() == fi[1] {
+				ft = st.Field(k).Type()
+			}
+		}
+		ex, err := ParseSpecExpr(fi[2])
+		if ft == nil || err != nil {
+			vc.Unsupported = append(vc.Unsupported, fmt.Sprintf("%s: fieldinv %s.%s: %v", fi[4], fi[0], fi[1], err))
+			continue
+		}
+		env := &Env{w: w, names: map[string]TV{"v": {w.Zero(ft), ft}}, st: NewState(), old: NewState(), lets: map[string]SExpr{}}
+		t, err := env.EvalBool(ex)
+		if err != nil {
+			vc.Unsupported = append(vc.Unsupported, fmt.Sprintf("%s: fieldinv: %v", fi[4], err))
+			continue
+		}
+		vc.Obls = append(vc.Obls, &Obligation{Name: fmt.Sprintf("package/fieldinv-zero#%d:%s.%s", i, fi[0], fi[1]), Class: "fieldinv", Props: props, Func: "package ice",
+			Desc: "declared field invariant holds of the zero value: " + fi[2], Pos: fi[4], Guard: True, Goal: t, Claimed: true})
+	}
 	seen := map[string]bool{}
 	for _, gi := range w.Spec.GlobalInvs {
 		toks, _ := lexSpec(gi[0])
